@@ -285,6 +285,11 @@ func finish(c *Ctx, pd *propDef) int {
 		fmt.Println("ERROR: no obligations were generated (vacuous run): contracts missing or functions under contract not found")
 		return 2
 	}
+	if os.Getenv("SLIPVC_LIST") != "" {
+		for _, it := range c.Items {
+			fmt.Printf("  %-11s %-6s %5.2fs %s\n", it.Status, it.Solver, it.Secs, it.Name)
+		}
+	}
 	replayDir := filepath.Join(verifDir, "replays", c.Prop)
 	_ = os.MkdirAll(replayDir, 0o755)
 	if c.WriteBase {
@@ -383,7 +388,7 @@ func finish(c *Ctx, pd *propDef) int {
 		}
 		if i := strings.Index(name, "/"); i >= 0 {
 			rest := name[i+1:]
-			for _, k := range []string{"post@", "at-eval@", "pre@", "trace@", "arity@", "inv-init@", "inv-keep@", "variant@", "step@", "frame:result@", "lemma@", "byte@", "on-call@", "on-store@", "on-map-update@", "on-map-delete@", "no-store@", "operand-kept@", "exact:"} {
+			for _, k := range []string{"post@", "at-eval@", "pre@", "trace@", "arity@", "inv-init@", "inv-keep@", "variant@", "step@", "frame:result@", "lemma@", "byte@", "on-call@", "on-store@", "on-map-update@", "on-map-delete@", "no-store@", "operand-kept@", "exact:", "confine@", "on-slice@"} {
 				if strings.HasPrefix(rest, k) {
 					vanished = append(vanished, name)
 				}
@@ -668,7 +673,7 @@ func isContractClause(name string) bool {
 		return false
 	}
 	rest := name[i+1:]
-	for _, k := range []string{"post@", "at-eval@", "pre@", "trace@", "on-call@", "on-store@", "on-map-update@", "on-map-delete@", "no-store@", "must-defer@", "full-loop@", "operand-kept@"} {
+	for _, k := range []string{"post@", "at-eval@", "pre@", "trace@", "on-call@", "on-store@", "on-map-update@", "on-map-delete@", "no-store@", "must-defer@", "full-loop@", "operand-kept@", "confine@", "on-slice@"} {
 		if strings.HasPrefix(rest, k) {
 			return true
 		}
